@@ -148,8 +148,9 @@ class Req:
 
 
 class Scenario:
-    def __init__(self, name, resps, reqs, mode="select", mem=0, split=None, note=""):
+    def __init__(self, name, resps, reqs, mode="select", mem=0, split=None, note="", poolfail=False):
         self.name, self.resps, self.reqs, self.mode, self.mem, self.split, self.note = name, resps, reqs, mode, mem, split, note
+        self.poolfail = poolfail     # the connection's memory pool is too small on purpose: the reply is cut short
 
     def script(self, faults=(), alloc_fail=None, count_allocs=False):
         L = ["case " + self.name, "cfg mode=%s spipe=1%s" % (self.mode, (" mem=%d" % self.mem) if self.mem else ""), "start"]
@@ -213,21 +214,29 @@ def corpus(tier):
                       [Req(method="POST", body=up, beh="f=c u=all l=r1"), Req(beh="f=c l=r2")]))
     S.append(Scenario("early-reply", {1: "kind=static size=50"}, [Req(method="POST", body=up, beh="f=r1")]))
     S.append(Scenario("dauth", {1: "kind=static size=20"}, [Req(beh="f=c l=r1 da=1", extra=DIGEST_HDR)]))
-    S.append(Scenario("iovec-smallpool", {1: "kind=iovec size=400 iovn=100"}, [Req()], mem=1024,
+    S.append(Scenario("iovec-smallpool", {1: "kind=iovec size=400 iovn=100"}, [Req()], mem=1024, poolfail=True,
                       note="the copy of the iovec (1600 bytes) does not fit the 1024-byte connection pool"))
     S.append(Scenario("chunked-smallpool", {1: "kind=cb-unknown size=300 cbmax=50"}, [Req()], mem=512))
     S.append(Scenario("epoll-static", {1: "kind=static size=2000"}, [Req()], mode="epoll"))
     S.append(Scenario("epoll-fd", {1: "kind=fd size=2000"}, [Req()], mode="epoll"))
     S.append(Scenario("epoll-chunked", {1: "kind=cb-unknown size=900 cbmax=400"}, [Req()], mode="epoll"))
     S.append(Scenario("epoll-post", {1: "kind=iovec size=300 iovn=5"}, [Req(method="POST", body=up, beh="f=c u=9,all l=r1")], mode="epoll", split=95))
+    S.append(Scenario("fd-large", {1: "kind=fd size=140000"}, [Req()], note="more than one sendfile chunk"))
     if tier == "thorough":
-        S.append(Scenario("fd-large", {1: "kind=fd size=140000"}, [Req()], note="more than one sendfile chunk"))
         S.append(Scenario("static-large", {1: "kind=static size=70000"}, [Req()]))
         S.append(Scenario("chunked-large", {1: "kind=cb-unknown size=70000"}, [Req()]))
         S.append(Scenario("pipe2000-epoll", {1: "kind=pipe size=2000"}, [Req()], mode="epoll"))
-        S.append(Scenario("iovec-epoll", {1: "kind=iovec size=5000 iovn=7"}, [Req()], mode="epoll"))
+        S.append(Scenario("iovec7-epoll", {1: "kind=iovec size=5000 iovn=7"}, [Req()], mode="epoll"))
         for nm, spec in kinds:
-            S.append(Scenario("%s1399" % nm, {1: "%s size=1300" % spec}, [Req()]))
+            S.append(Scenario("%s1300" % nm, {1: "%s size=1300" % spec}, [Req()]))
+            S.append(Scenario("%s-epoll" % nm, {1: "%s size=2000" % spec}, [Req()], mode="epoll"))
+            S.append(Scenario("%s-head" % nm, {1: "%s size=700" % spec}, [Req(method="HEAD")]))
+            S.append(Scenario("%s-http10" % nm, {1: "%s size=700" % spec}, [Req(ver="1.0")]))
+        S.append(Scenario("pipe-3", {1: "kind=iovec size=900 iovn=4", 2: "kind=cb-known size=1200 cbmax=500", 3: "kind=fdoff size=800"},
+                          [Req(beh="f=c l=r1"), Req(method="POST", body=up, beh="f=c u=11,all l=r2"), Req(beh="f=c l=r3")], split=60))
+        S.append(Scenario("pipe-3-epoll", {1: "kind=static size=900", 2: "kind=cb-unknown size=1200 cbmax=500", 3: "kind=fd size=800"},
+                          [Req(beh="f=c l=r1"), Req(method="POST", body=up, chunked=True, beh="f=c u=all l=r2"), Req(beh="f=c l=r3")], mode="epoll"))
+    assert len({s.name for s in S}) == len(S), "scenario names must be unique"
     return S
 
 
@@ -366,6 +375,24 @@ class CaseLog:
 
 # --------------------------------------------------------------------------- oracle
 
+CONT = b"HTTP/1.1 100 Continue\r\n\r\n"
+
+
+def canon_stream(b):
+    """whether the interim "100 Continue" is sent depends on whether body bytes have already arrived when
+    the header is complete (connection.c: need_100_continue && 0 == read_buffer_offset) — i.e. on how the
+    request happens to be split into reads.  It is not part of the reply stream the property is about."""
+    return b.replace(CONT, b"")
+
+
+def prefix_ok(got, want):
+    g, w = canon_stream(got), canon_stream(want)
+    if w.startswith(g):
+        return True
+    n = next((i for i in range(min(len(g), len(w))) if g[i] != w[i]), min(len(g), len(w)))
+    return CONT.startswith(g[n:]) and len(g[n:]) < len(CONT)       # cut inside the interim response
+
+
 def oracle(sc, plan, ref, log, stderr_txt):
     """Independent statement of C07 over the harness log of one faulted run (`log`) and the
     fault-free run of the same scenario (`ref`).  Returns a list of (signature, detail)."""
@@ -387,7 +414,7 @@ def oracle(sc, plan, ref, log, stderr_txt):
         if quiet < 3:
             bad.append(("no quiescence: still busy after N rounds", "settle ran %d rounds" % rounds))
     # the bytes delivered to the client are a prefix of the fault-free stream
-    if not diverged and not ref.wire.startswith(log.wire):
+    if not diverged and not prefix_ok(log.wire, ref.wire):
         n = next((i for i in range(min(len(ref.wire), len(log.wire))) if ref.wire[i] != log.wire[i]), min(len(ref.wire), len(log.wire)))
         bad.append(("client stream is not a prefix of the fault-free stream",
                     "first difference at byte %d of %d (fault-free %d bytes): got …%s expected …%s"
@@ -418,13 +445,15 @@ def oracle(sc, plan, ref, log, stderr_txt):
         if ("kind=cb-" in spec or "kind=freecb" in spec) and log.freed.get(rid, 0) != n:
             bad.append(("free callback count differs from the number of response objects created",
                         "rid=%s created %d times, free callback ran %d times" % (rid, n, log.freed.get(rid, 0))))
+    if log.arrive == "0" and not (log.eof or log.rst):
+        bad.append(("refused connection: the socket was not closed by the library", ""))
     if log.arrive == "1" and log.conn_start is not None and log.conn_close_at is None:
         bad.append(("connection-closed notification missing", ""))
     if log.arrive == "1" and log.conn_start is None and not alloc_fired:
         bad.append(("accepted connection was never started", ""))
     # transient faults alone never change what is finally delivered
     if not permanent and not alloc_fired:
-        if log.wire != ref.wire:
+        if canon_stream(log.wire) != canon_stream(ref.wire):
             bad.append(("transient faults changed the delivered stream",
                         "delivered %d bytes, fault-free %d bytes" % (len(log.wire), len(ref.wire))))
         for i in range(len(sc.reqs)):
@@ -447,7 +476,7 @@ def oracle(sc, plan, ref, log, stderr_txt):
                 seen = True
     # an allocation failure leaves the exchange intact or closes the connection
     if alloc_fired and not permanent and not diverged:
-        if log.wire != ref.wire and not (log.closed_before_stop() or log.arrive == "0"):
+        if canon_stream(log.wire) != canon_stream(ref.wire) and not (log.closed_before_stop() or log.arrive == "0"):
             bad.append(("allocation failure: stream truncated but connection not closed", ""))
     # no connection may be left in the middle of a reply
     if log.final_wst is not None and log.final_wst.get("st") not in ("init", "req-line-receiving") and not log.closed_before_stop():
@@ -528,6 +557,44 @@ def dechunk(b):
     return out, b""
 
 
+def reference_content(sc, ref):
+    """the fault-free stream itself must carry what the application queued: for every reply of
+    the application, the (de-chunked) body is the content of the response object; HEAD has none"""
+    bad = []
+    if sc.poolfail:
+        if not ref.closed_before_stop():
+            bad.append(("pool allocation failure did not close the connection", ""))
+        return bad
+    try:
+        reps = [r for r in parse_replies(ref.wire, sc.reqs) if not r["interim"]]
+    except Exception as exn:
+        return [("fault-free reply stream is not well-formed HTTP", repr(exn))]
+    for rep in reps:
+        spec = resp_spec(sc, rep["req"])
+        rq = sc.reqs[rep["req"]] if rep["req"] < len(sc.reqs) else None
+        if spec is None or rq is None or rq.malformed or rep["status"] >= 400:
+            continue
+        k = spec.get("kind", "copy")
+        want = b"" if (k == "empty" or rep["head"]) else body_of(spec["rid"], int(spec.get("size", 5)))
+        got = rep["wire_body"]
+        if rep.get("chunked") and not rep["head"]:
+            try:
+                got, _ = dechunk(got)
+            except Exception as exn:
+                bad.append(("fault-free reply: chunked framing broken", repr(exn)))
+                continue
+        if got != want:
+            bad.append(("fault-free reply does not carry the content of the response object",
+                        "request %d: %d body bytes on the wire, content has %d" % (rep["req"], len(got), len(want))))
+    for i, rq in enumerate(sc.reqs):
+        if rq.body and not rq.malformed and "all" in rq.beh and "f=r" not in rq.beh and ref.took.get(i, b"") != rq.body:
+            bad.append(("fault-free run: the handler did not receive the complete request body",
+                        "request %d: %d of %d bytes" % (i, len(ref.took.get(i, b"")), len(rq.body))))
+    if len(reps) < sum(1 for r in sc.reqs if not r.malformed and "f=r" not in r.beh) - 0 and not any(r.malformed for r in sc.reqs):
+        bad.append(("fault-free run: fewer replies than requests", "%d replies" % len(reps)))
+    return bad
+
+
 def model_script(sc, ref, log):
     """driver script for one run + the harness lines it has to reproduce.
     Only replies to well-formed requests answered by the application are described."""
@@ -547,13 +614,14 @@ def model_script(sc, ref, log):
         prev = s
     script, expect = [], []
     gi = 0
+    # "100 Continue" is a fixed string sent by MHD_send_data_ alone, and whether it is sent depends on timing
+    groups = [g for g in groups if g[0]["st"] != "continue-sending"]
+    replies = [r for r in replies if not r["interim"]]
     for rep in replies:
         if gi >= len(groups):
             break
         g = groups[gi]
         gi += 1
-        if rep["interim"] or g[0]["st"] == "continue-sending":
-            continue            # "100 Continue" is a fixed string sent by MHD_send_data_ alone
         spec = resp_spec(sc, rep["req"])
         malformed = sc.reqs[rep["req"]].malformed if rep["req"] < len(sc.reqs) else True
         if rep["status"] >= 400 or spec is None or malformed:
@@ -603,18 +671,92 @@ def model_script(sc, ref, log):
     return script, expect
 
 
+def upload_script(sc, log):
+    """driver script for the upload side of one run: the body bytes every recv() delivered and every
+    upload call of the handler (identity-encoded request bodies of the first request only)"""
+    rq = sc.reqs[0]
+    if rq.method != "POST" or rq.chunked or not rq.body or "f=r" in rq.beh:
+        return [], []
+    H = rq.raw.index(b"\r\n\r\n") + 4
+    rest = b"".join(r.raw for r in sc.reqs[1:])
+    script = ["upload cap=1000000 body=%s rest=%s" % (hx(rq.body), hx(rest))]
+    expect = [None]
+    # interleave recv results and upload calls in log order
+    ev, total = [], 0
+    for s_ in log.sys:
+        if s_["k"] == "recv" and not s_["ret"].startswith("E"):
+            ev.append((s_["idx"], "recv", int(s_["ret"])))
+    idx_up = [i for i, ln in enumerate(log.lines) if ln.startswith("handler ") and " r=0 " in ln and "phase=upload" in ln]
+    tk = [i for i, ln in enumerate(log.lines) if ln.startswith("took ") and " r=0 " in ln]
+    for i, j in zip(idx_up, tk):
+        d = kvs(log.lines[i].split()[1:])
+        offered = len(d["up"]) // 2
+        took = int(kvs(log.lines[j].split()[1:])["n"])
+        ev.append((i, "take", (offered, took)))
+    ev.sort()
+    for _, kind, v in ev:
+        if kind == "recv":
+            before, total = total, total + v
+            delta = max(0, total - H) - max(0, before - H)
+            if delta > 0:
+                script.append("urecv data:%d" % delta)
+                expect.append(None)
+        else:
+            script.append("utake %d" % v[1])
+            expect.append(("utake", v[0], v[1]))
+    script.append("uend")
+    expect.append(("uend", log.took.get(0, b"")))
+    return script, expect
+
+
+HAB_ANS = ["full", "short:1", "short:2", "short:3", "short:4", "short:9", "eagain", "eintr", "econnreset", "epipe",
+           "enotconn", "einval", "enomem", "ebadf"]
+
+
+def hab_cases():
+    """MHD_send_hdr_and_body_ without vector send: every combination of the abstracted inputs"""
+    out = []
+    for hdr in (b"H", b"HEAD"):
+        for body in (b"", b"b", b"bod"):
+            for nb in (0, 1):
+                for a1 in HAB_ANS:
+                    for a2 in HAB_ANS:
+                        out.append("hab %s %s %d %s %s" % (hx(hdr), hx(body), nb, a1, a2))
+    return out
+
+
+def hab_oracle(line, out):
+    """independent: what left through the socket is a prefix of header ++ body; a byte count returned is
+    exactly the number of bytes that left; "again" means nothing left"""
+    w = line.split()
+    hdr = bytes.fromhex(w[1]); body = b"" if w[2] == "-" else bytes.fromhex(w[2])
+    d = kvs(out.split()[1:])
+    ret = int(d["ret"]); wire = b"" if d["wire"] == "-" else bytes.fromhex(d["wire"])
+    if not (hdr + body).startswith(wire):
+        return "bytes on the wire are not a prefix of header ++ body"
+    if ret >= 0 and ret != len(wire):
+        return "returned count %d but %d bytes left through the socket" % (ret, len(wire))
+    if ret == -3073 and wire:
+        return "'try again' returned after bytes were sent"
+    if ret < 0 and ret != -3073 and wire not in (b"", hdr):
+        return "hard error with a partial header on the wire"
+    return None
+
+
 # --------------------------------------------------------------------------- the check
 
-FAULT_KINDS_QUICK = ["short 1", "short 37", "eagain", "eintr", "econnreset", "epipe"]
-FAULT_KINDS_MORE = ["enotconn", "einval", "enomem", "ebadf", "short 1000"]
+FAULT_KINDS_QUICK = ["short 1", "short 37", "eagain", "eintr", "econnreset", "epipe", "einval", "ebadf"]
+FAULT_KINDS_MORE = ["enotconn", "enomem", "short 1000"]
 
 
 class Spec:
     props_module = "Mhd.Props.C07"
     lean_targets = ["Mhd.Props.C07", "drv_send"]
-    required_theorems = ["Mhd.C07.round_inv", "Mhd.C07.delivered_prefix", "Mhd.C07.closed_never_sends",
-                         "Mhd.C07.hard_error_closes", "Mhd.C07.transient_delivers_all", "Mhd.C07.upload_prefix",
-                         "Mhd.C07.alloc_failure_closes_or_unchanged"]
+    required_theorems = ["Mhd.C07.round_inv", "Mhd.C07.delivered_prefix", "Mhd.C07.done_delivers_all",
+                         "Mhd.C07.transient_never_closes", "Mhd.C07.transient_delivers_all", "Mhd.C07.transient_measure",
+                         "Mhd.C07.closed_never_sends", "Mhd.C07.hard_error_closes", "Mhd.C07.sendfile_error_policy",
+                         "Mhd.C07.alloc_failure_closes_or_unchanged", "Mhd.C07.alloc_failure_at_start",
+                         "Mhd.C07.alloc_failure_chunk_buffer", "Mhd.C07.upload_prefix"]
     trusted_base = ["Lean 4 kernel", "axioms: propext, Classical.choice, Quot.sound at most (audited per theorem)",
                     "hand-written model lean/Mhd/Model/Send.lean + SendConn.lean, tied to mhd_send.c / connection.c by this run's "
                     "call-by-call correspondence under fault injection",
@@ -688,7 +830,16 @@ class Spec:
             for g, e in zip(got, expect):
                 if e is None:
                     continue
-                if isinstance(e, tuple):
+                if isinstance(e, tuple) and e[0] == "utake":
+                    d = kvs(g.split())
+                    if (d.get("offered"), d.get("took")) != (str(e[1]), str(e[2])):
+                        diffs.append("upload call: code offered %d / handler took %d, model: %s" % (e[1], e[2], g))
+                elif isinstance(e, tuple) and e[0] == "uend":
+                    d = kvs(g.split())
+                    hb = b"" if d.get("handed", "-") == "-" else bytes.fromhex(d["handed"])
+                    if hb != e[1]:
+                        diffs.append("upload bytes handed to the application: code %s, model %s" % (e[1].hex(), hb.hex()))
+                elif isinstance(e, tuple):
                     d = kvs(g.split())
                     outb = b"" if d.get("out", "-") == "-" else bytes.fromhex(d["out"])
                     if len(outb) != e[1]:
@@ -719,7 +870,10 @@ class Spec:
             ref[s.name] = lg
             if err or not lg.stopped or not lg.sys:
                 broken.add(s.name)
-            for sig, det in oracle(s, ((), None), lg, lg, err):
+            refbad = oracle(s, ((), None), lg, lg, err) + ([] if err or not lg.stopped else reference_content(s, lg))
+            if refbad:
+                broken.add(s.name)     # the fault-free exchange itself is wrong: report it, nothing to enumerate
+            for sig, det in refbad:
                 failures.append(vlib.Failure("sanitizer" if "anitizer" in sig or "runtime error" in sig or "Fatal" in sig or "process died" in sig else "oracle",
                                              "send: fault-free run: %s" % sig, "scenario %s (%s): %s" % (s.name, s.note, det),
                                              {"scenario": s.name, "faults": [], "alloc_fail": None, "script": s.script()}, ENGINE))
@@ -753,13 +907,31 @@ class Spec:
                             continue
                         plans.append((s, ([(k, i, fk)], None)))
                         stats["fault_points"] += 1
+            # short counts that end exactly on / next to a boundary the accounting cares about: the end of
+            # the header block (header+body in one sendmsg), the end of an iovec element, the end of a chunk
+            bnd = set()
+            for x in lg.sys:
+                if x["k"] in KIND_SEND:
+                    if x["st"] == "headers-sending":
+                        bnd.update((x["k"], int(x["n"]), int(x["ao"]) + d) for d in (-1, 0, 1))
+                    if x["k"] == "sendmsg" and int(x["ie"]) > 0:
+                        bnd.update((x["k"], int(x["n"]), int(x["ie"]) * m) for m in (1, 2))
+                    if x["st"] == "chunked-body-ready":
+                        bnd.update((x["k"], int(x["n"]), int(x["req"]) - d) for d in (1, 2))
+            for (k, i, n) in sorted(bnd):
+                if n >= 1 and i <= 3:
+                    plans.append((s, ([(k, i, "short %d" % n)], None)))
+                    stats["fault_points"] += 1
+                    # … followed by one more short count, so that the state left behind is exercised
+                    plans.append((s, ([(k, i, "short %d" % n), (k, i + 1, "short 1")], None)))
+                    stats["multi"] += 1
             # every single allocation failure
             na = lg.allocs[0] if lg.allocs else 0
             for i in range(1, na + 2):
                 plans.append((s, ([], i)))
                 stats["alloc_points"] += 1
             # random multi-fault plans
-            nm = (12 if ctx.tier == "thorough" else 3) * (3 if boost else 1)
+            nm = (40 if ctx.tier == "thorough" else 3) * (3 if boost else 1)
             for _ in range(nm):
                 fl, used = [], set()
                 for _ in range(ctx.rng.randint(2, 5)):
@@ -796,6 +968,9 @@ class Spec:
             if not err and not (lg.fired.get("alloc", 0) and lg.app_diverged(ref[s.name])):
                 try:
                     sc_, ex_ = model_script(s, ref[s.name], lg)
+                    su_, eu_ = upload_script(s, lg)
+                    sc_, ex_ = sc_ + su_, ex_ + eu_
+                    stats["upload_calls"] = stats.get("upload_calls", 0) + sum(1 for l in su_ if l.startswith("utake"))
                 except Exception as exn:     # the log cannot be described to the model: report as model drift
                     failures.append(vlib.Failure("diff", "send: run cannot be translated for the model", repr(exn),
                                                  {"scenario": s.name, "faults": p[0], "alloc_fail": p[1], "script": scripts[idx]}, ENGINE))
@@ -821,11 +996,29 @@ class Spec:
             diffs = list(r.get("diffs", []))
             outb = r.get("out", b"")
             # the bytes the model says were delivered are the bytes the client saw (replies described to the model only)
-            if outb and not diffs and outb not in lg.wire:
+            if outb and not diffs and outb not in canon_stream(lg.wire):
                 diffs.append("bytes delivered according to the model are not what the client received")
             if diffs:
                 failures.append(vlib.Failure("diff", "send: model/code differ: " + re.sub(r"\d+", "N", diffs[0])[:120],
                                              "scenario %s plan %s: %s" % (s.name, p, " || ".join(diffs[:4])), inp, ENGINE))
+        # 3. MHD_send_hdr_and_body_ without vector send (the TLS-only fall-back), entered directly:
+        #    exhaustive over header/body sizes x blocking mode x the answers of the two send() calls
+        hab = hab_cases()
+        hout, hrc, herr = vlib.run_lines(self.harness, hab, timeout=300)
+        mout, mrc, merr = vlib.run_lines(self.driver, hab, timeout=300)
+        if hrc != 0 or herr.strip() or len(hout) != len(hab):
+            failures.append(vlib.Failure("sanitizer", "send: hdr+body unit run failed", (herr or "rc=%d" % hrc)[-1500:],
+                                         {"scenario": "hab-unit", "faults": [], "alloc_fail": None, "script": hab[:len(hout) + 1][-3:]}, ENGINE))
+        else:
+            for ln, ho, mo in zip(hab, hout, mout + [""] * len(hab)):
+                e = hab_oracle(ln, ho)
+                if e:
+                    failures.append(vlib.Failure("oracle", "send: hdr+body fall-back: " + re.sub(r"\d+", "N", e), "%s -> %s" % (ln, ho),
+                                                 {"scenario": "hab-unit", "faults": [], "alloc_fail": None, "script": [ln]}, ENGINE))
+                elif ho != mo:
+                    failures.append(vlib.Failure("diff", "send: model/code differ on hdr+body fall-back", "%s: code '%s' model '%s'" % (ln, ho, mo),
+                                                 {"scenario": "hab-unit", "faults": [], "alloc_fail": None, "script": [ln]}, ENGINE))
+        stats["hab"] = len(hab)
         distinct = len({json.dumps([s.name, p[0], p[1]]) for s, p in plans})
         cov = {"evaluations": stats["runs"], "distinct_nontrivial": distinct,
                "rule": "one evaluation = one scripted exchange on the real daemon with one fault plan; distinct = different "
@@ -835,6 +1028,10 @@ class Spec:
                "multi_fault_plans": stats["multi"], "fault_kinds": kinds, "faults_fired": stats["fired"],
                "runs_connection_closed": stats["closed_runs"], "runs_stream_complete": stats["complete_runs"],
                "model_replies_replayed": stats["model_replies"], "model_calls_compared": stats["model_calls"],
+               "upload_calls_compared": stats.get("upload_calls", 0),
+               "hdr_body_fallback_cases": stats.get("hab", 0),
+               "hdr_body_fallback_note": "exhaustive over 2 header sizes x 3 body sizes x blocking/non-blocking x 14 x 14 answers of the two send() calls; "
+                                         "same source text of mhd_send.c compiled without vector send inside the harness",
                "corpus": stats["corpus"],
                "exhaustive": False,
                "exhaustive_note": "single-fault enumeration is complete per scenario in the thorough tier (every call index up to fault-free count + 2, "
@@ -847,6 +1044,16 @@ def replay(ctx, path):
     r = json.load(open(path))
     sp = Spec(); sp.gen(ctx); vlib.lake_build(sp.lean_targets); sp.build(ctx)
     inp = r["input"]
+    if inp.get("scenario") == "hab-unit":
+        hout, hrc, herr = vlib.run_lines(sp.harness, inp["script"])
+        mout, _, _ = vlib.run_lines(sp.driver, inp["script"])
+        bad = 0
+        for ln, ho, mo in zip(inp["script"], hout, mout):
+            e = hab_oracle(ln, ho)
+            print(ln, "| code:", ho, "| model:", mo, "| oracle:", e)
+            bad += 1 if (e or ho != mo) else 0
+        print(herr[-800:])
+        return 1 if bad or hrc else 0
     S = {s.name: s for s in corpus("thorough")}
     s = S[inp["scenario"]]
     p = ([tuple(x) for x in inp["faults"]], inp.get("alloc_fail"))
